@@ -44,6 +44,8 @@ type C10Scenario struct {
 	Ops        []C10Op   `json:"ops"`
 	Concurrent [][]C10Op `json:"concurrent,omitempty"` // scenario B: tasks appending/reading concurrently
 	NetFaults  map[int]string `json:"net_faults,omitempty"` // durable-streams: request index -> lost-request / lost-response
+	// ConcOpen (SQLite): the "other" store of the isolation check is created by a second task while the first creates the main one
+	ConcOpen bool `json:"conc_open,omitempty"`
 }
 
 var c10Zones = []*time.Location{
@@ -155,6 +157,7 @@ func genStoreCfg(rt *rapid.T) StoreCfg {
 
 func genC10(rt *rapid.T) core.Scenario {
 	sc := &C10Scenario{Store: genStoreCfg(rt)}
+	sc.ConcOpen = sc.Store.Kind == "sqlite" && rapid.IntRange(0, 2).Draw(rt, "concOpen") == 2
 	mode := rapid.IntRange(0, 9).Draw(rt, "mode")
 	n := rapid.IntRange(1, 30).Draw(rt, "nOps")
 	if rapid.IntRange(0, 9).Draw(rt, "long") == 9 {
@@ -237,17 +240,29 @@ func (sc *C10Scenario) Execute(t *testing.T) *core.Outcome {
 		env := newStoreEnv()
 		defer env.Close()
 		// a second, separately created store of the same kind must never show the first one's events
-		other, err := env.openStore(sc.Store, "other")
-		if err != nil {
-			out.HarnessErr = "open: " + err.Error()
-			return
-		}
 		ctx := context.Background()
-		if _, err := other.Append(ctx, &eventbus.Event{Type: "other-store", Data: json.RawMessage(`{"x":1}`), Timestamp: time.Unix(5, 0).UTC()}); err != nil {
-			out.HarnessErr = "append other: " + err.Error()
-			return
+		openOther := func() {
+			other, err := env.openStore(sc.Store, "other")
+			if err != nil {
+				out.HarnessErr = "open: " + err.Error()
+				return
+			}
+			if _, err := other.Append(ctx, &eventbus.Event{Type: "other-store", Data: json.RawMessage(`{"x":1}`), Timestamp: time.Unix(5, 0).UTC()}); err != nil {
+				out.HarnessErr = "append other: " + err.Error()
+			}
+		}
+		var opener *simrt.Task
+		if sc.ConcOpen {
+			// the two stores are created by two tasks at the same time
+			opener = simrt.GoNamed("open-other", openOther)
+		} else {
+			openOther()
 		}
 		st, err := env.openStore(sc.Store, "main")
+		simrt.Join(opener)
+		if out.HarnessErr != "" {
+			return
+		}
 		if err != nil {
 			out.HarnessErr = "open: " + err.Error()
 			return
@@ -402,9 +417,8 @@ func (sc *C10Scenario) Execute(t *testing.T) *core.Outcome {
 					return
 				}
 				from, _, _ := pick(op.From)
-				if from == eventbus.OffsetOldest {
-					return // only offsets the store itself returned are saved (input limit, DESIGN.md C10)
-				}
+				// (OffsetOldest is an offset the store returns - LoadOffset for a subscription that never saved -
+				// and saving it sets the subscription back to the start of the log)
 				id := fmt.Sprintf("sub-%d", op.Sub)
 				if err := subStore.SaveOffset(ctx, id, from); err != nil {
 					viol("save-failed", "save-error", "SaveOffset(%s, %q) failed: %v", id, from, err)
@@ -421,7 +435,17 @@ func (sc *C10Scenario) Execute(t *testing.T) *core.Outcome {
 					viol("load-failed", "load-error", "LoadOffset(%s) failed: %v", id, err)
 					return
 				}
-				if got != m.subs[id] {
+				if m.subs[id] == eventbus.OffsetOldest && got != eventbus.OffsetOldest {
+					// set back to the start (or never saved): the store may name the start differently, as long as a
+					// read resumed from it begins with the first event of the log
+					evs, _, err := st.Read(ctx, got, 1)
+					switch {
+					case err != nil:
+						viol("saved-offset-wrong", "saved-offset", "LoadOffset(%s) = %q (saved: the start of the log); Read from it failed: %v", id, got, err)
+					case len(m.log) > 0 && (len(evs) == 0 || !jsonEqual(evs[0].Data, m.log[0].Data)):
+						viol("saved-offset-wrong", "saved-offset", "LoadOffset(%s) = %q although the subscription was last set to the start of the log: a read resumed from it does not begin with the first event", id, got)
+					}
+				} else if got != m.subs[id] {
 					viol("saved-offset-wrong", "saved-offset", "LoadOffset(%s) = %q, last saved %q (oldest if none)", id, got, m.subs[id])
 				}
 			}
@@ -470,6 +494,11 @@ func (sc *C10Scenario) Execute(t *testing.T) *core.Outcome {
 	out.Rep = rep
 	if out.HarnessErr == "" {
 		out.HarnessErr = herr
+		if call, hung := storeHang(rep); hung {
+			out.HarnessErr = ""
+			out.V("store-call-never-returned", "a call into the store did not return although nothing else was runnable and a minute of simulated time had passed: %s", call)
+			return out
+		}
 	}
 	if rep == nil || out.HarnessErr != "" {
 		return out
